@@ -183,6 +183,30 @@ purge_harness!(c09_k3_purge_first, true, false);
 purge_harness!(c09_k3_purge_second, false, true);
 purge_harness!(c09_k3_purge_both, true, true);
 
+/// K3e: a tower without any registered user still follows the chain: the connected height is recorded (for every height and
+/// configuration), so that the next registration is dated from the present and not from the last time somebody was around.
+#[kani::proof]
+#[kani::stub(bitcoin::block::Header::block_hash, crate::verif_stubs::block_hash_model)]
+#[kani::unwind(6)]
+fn c09_k3_block_connected_no_users() {
+    let mut gk = concrete_gk(0);
+    gk.expiry_delta = kani::any();
+    gk.subscription_slots = kani::any();
+    gk.subscription_duration = kani::any();
+    gk.last_known_block_height.store(kani::any(), Ordering::Release);
+    let h: u32 = kani::any();
+    let txdata: Vec<(usize, &bitcoin::Transaction)> = Vec::new();
+    chain::Listen::filtered_block_connected(&gk, &crate::verif_stubs::hdr(1), &txdata, h);
+    assert!(gk.verif_height() == h, "C09.block: the connected height is recorded even when nobody is registered");
+    // and a registration right afterwards starts now
+    kani::assume(gk.subscription_slots >= 1);
+    let r = gk.add_update_user(user(2));
+    assert!(matches!(&r, Ok(rc) if rc.subscription_start() == h), "C09.register: a first registration starts at the tower's current height");
+    kani::cover!(true, "reach");
+    std::mem::forget(r);
+    std::mem::forget(gk);
+}
+
 /// K4: a disconnection of the block at height h takes the gatekeeper back to h-1 and changes nothing else.
 #[kani::proof]
 #[kani::stub(bitcoin::block::Header::block_hash, crate::verif_stubs::block_hash_model)]
